@@ -31,6 +31,8 @@ fn main() {
         "lab" => lab::run(),
         "labpreview" => lab::preview_probe(),
         "lablimit" => lab::limit_probe(),
+        "labsqueeze" => lab::squeeze_probe(),
+        "laborder" => lab::order_probe(),
         "c01" | "c02" => c01::run(&args),
         "c03" => c03::run(&args),
         "c04" => c04::run(&args),
